@@ -148,7 +148,27 @@ CONC_PLAN["thorough"] += [("panic_help", 4000), ("help2w", 40000), ("aba", 5000)
 
 NOT_APPLICABLE = {}
 MANIFEST_TEXT = {
-    "default": {"text": "TLC exhaustively checks the implementation-shaped specification (one action per atomic access) against the observable specification on small configurations; every execution of the real crate under random/PCT/directed schedules is validated by TLC against the observable specification, clause by clause."},
+    "default": {"text": "TLC exhaustively checks the implementation-shaped specification (one action per atomic access) against the observable specification on small configurations; every execution of the real crate under random/PCT/systematic/TLC-derived schedules is validated by TLC against the observable specification, clause by clause."},
+    "C01": {"text": "Model checking: ArcSwapImpl (both read paths, nested helping, address reuse, node reuse) refines ArcSwapAbs incl. 'every held handle is live' on 8 (quick) / 15 (thorough) TLC configurations, 4 seeded model bugs must be caught. Conformance: ~40k (quick) executions of the real crate (random, PCT, all 2- and 3-context-switch schedules of reader x writer pairs, 2100 TLC behaviours replayed at the exact accesses) validated by TLC against ArcSwapAbs: no count operation or dereference after destruction, no destruction while a handle/guard/container refers to the value. Weak-memory clause: only what Trace_Mem sees on interleavings (C07)."},
+    "C02": {"text": "Ledger clauses of ArcSwapAbs at every quiescent point of every execution (count + occupied slots = owners, owner-less values destroyed, no slot without guard, no open read transaction), and the Ledger / EnvelopeLinear invariants of ArcSwapImpl under TLC."},
+    "C03": {"text": "LoadOK: the returned value was stored in the container at some instant of the call (seen-set semantics, deterministic because the exchange events are in the trace); checked by TLC on ArcSwapImpl (refinement) and on every real execution."},
+    "C04": {"text": "Every exchange on the container continues the single write order (old = stored value), one exchange per operation, swap/rcu/cas hand back exactly the displaced value, a result equal to `current` implies an exchange; TLC on ArcSwapImpl (2 writers, rcu x store) and on every real execution."},
+    "C05": {"text": "CasOK clauses (replaces iff equal, returns the previous value, success visible by pointer equality, rejected new released) incl. A-B-A schedules (same value stored back between the internal load and the exchange, all 2/3-switch schedules) and every AsRaw form of `current`."},
+    "C06": {"text": "RcuOK: the installed value was computed from exactly the displaced one (parent tag), discarded attempts never visible; rcu x rcu / rcu x store under TLC, all 2/3-switch schedules incl. A-B-A on the real crate."},
+    "C07": {"level_note": "interleavings only: defects that need a stale (non-latest) read are not visible to this monitor; VPtr follows Arc's count protocol", "text": "Happens-before monitor (spec/Mem.tla: vector clocks, release sequences, fences, Arc count protocol) over the atomic accesses the real code performed with the orderings it requested: every dereference needs the initialisation of the value in its past, every destruction needs all accesses in its past. Schedules: victim reader x atomic writers at every pair of reader steps with address reuse (found F2), random families, directed needles. The ordering table is extracted and compared with spec/Ord_design.json.", "technique": "TLA+ happens-before specification (Mem.tla) used as a TLC trace monitor over real executions"},
+    "C08": {"text": "LoadSteps invariant of ArcSwapImpl under all interleavings (TLC) and the step bound clause of ArcSwapAbs on real executions under an adversary that completes k writes after every reader step (150-600 writes available, 0-12 guards held, both strategies)."},
+    "C09": {"text": "SoloProgress (ENABLED Step(t) whenever everybody else is frozen, from every reachable state) under TLC; on the real crate a randomly chosen thread is run alone from a random point and must finish its operation within SoloStepBound own steps; non-terminating executions are violations."},
+    "C10": {"text": "GuardStable/NoUAF clauses for guards: > 8 guards, guards dropped on other threads, creating thread exited, node re-claimed, container dropped first; TLC configurations rw1h, churn, churn2; real executions of the guards/churn/drop families and systematic schedules."},
+    "C11": {"text": "Node life-cycle in ArcSwapImpl (NodeExclusive, NodeUsedOwned, NodeBound) under TLC; on real executions the node-protocol monitor of Mem.tla (transaction state touched only by the owner or a registered writer; no hand-over while a pre-cool-down writer is inside; single owner), the bound #nodes <= 2 x peak threads, operations from thread-local destructors, systematic re-claim-under-writer schedules."},
+    "C12": {"text": "Two containers under TLC (2c configurations); on real executions a load that returns a value only ever stored in another container is attributed to C12 (foreign-value clause), multi/solo2c families, re-claim schedules across containers."},
+    "C13": {"text": "GenMod = 2 in ArcSwapImpl: the design of 1.7.1 (WrapMode code) violates NoPanic (negative control = finding F1), the repaired design (fixed) holds all invariants incl. the nested case; on the real crate the generation counter is preset next to the wrap (verif::set_generation), incl. the wrap inside a writer's nested load at every reader position; any panic, abort or hang of an operation is a violation."},
+    "C14": {"text": "All sequential programs of length <= 2 (thorough: 3) plus random deeper ones are enumerated by TLC from spec/SeqGen.tla and executed under DefaultStrategy, the fallback-only strategy and RwLock<()>; ArcSwapAbs pins every returned identity and every count in a sequential run; the identities must also agree across the strategies."},
+    "C15": {"text": "All operation sequences (into_ptr, from_ptr, as_ptr, inc, dec, clone, drop, upgrade, drop of the target) up to length 4/5 from 20 initial count states are enumerated by TLC from spec/RefCntLaws.tla with the predicted counts and executed on the real impls for 4 pointee layouts."},
+    "C16": {"text": "Cache clauses of ArcSwapAbs (value returned was stored during the call, i.e. current-or-newer and never older than the previous result) on concurrent executions incl. a store landing at every point inside Cache::load followed by address reuse; sequential cache programs via SeqGen."},
+    "C17": {"text": "Projection guards through Access, Map (static), Box<dyn DynAccess>, Map of Map, AccessConvert and ArcSwapAny::map: the snapshot shown is one value stored during the load, stays the same and alive for the guard's life while stores happen."},
+    "C18": {"text": "Fault enumeration: panicking destructors at every site where the library drops a value (displaced by store, rejected by compare_and_swap/rcu, candidate of a helped fallback load, guard drop) and panicking rcu closures on attempt 1..3, under contention; after unwinding the ledger clauses must hold (tagged C18)."},
+    "C19": {"text": "TLC evaluates the auto-trait algebra of spec/AutoTraits.tla (220 instantiations) incl. its soundness clause; rustc answers the same 440 questions about the real types through a compile-time probe; each row must be sound and, except DynGuard, exact.", "technique": "TLA+ table (AutoTraits.tla) evaluated by TLC, compared with rustc's answers"},
+    "C20": {"text": "Value shapes enumerated by TLC (SerdeShapes.tla); for each: serialize(container) = serialize(stored pointer), deserialize gives the value with a single reference, round trip, for ArcSwap / ArcSwapOption (Some, None) under 3 strategies.", "technique": "TLC-enumerated inputs, relational oracle on the real serde impls"},
 }
 
 
